@@ -81,6 +81,19 @@ HOSTILE = [
 ]
 
 
+# rows of the country table with a zero in a column most rows have a value in (no cropland: SGP; no feed and no biofuel use:
+# BDI SYR LBY SOM SSD ERI BHR BTN BRN QAT; no aquatic food: TWN MNG; stocks at zero in some month: SUR BDI SSD; no dairy: PNG;
+# no chickens: ROU SVK) - derived by scanning computer_readable_combined.csv for columns with 1..12 zeros
+ZERO_ROWS = ["SGP", "BDI", "SYR", "SSD", "BHR", "SUR", "TWN", "PNG", "ROU", "QAT", "LBY", "SOM", "ERI", "BTN", "BRN", "SVK"]
+
+
+def zero_rows(seed, k):
+    """k of the degenerate rows, rotating with the seed (SGP, the only row without cropland, always first)"""
+    isos = all_isos()
+    z = [i for i in ZERO_ROWS if i in isos]
+    return (["SGP"] + rotate(z[1:], seed * 3)[: max(0, k - 1)])[:k]
+
+
 def families(scale):
     f = dict(FAMILIES_COMMON)
     f.update(FAMILIES_COUNTRY if scale == "country" else FAMILIES_GLOBAL)
@@ -318,6 +331,7 @@ def pipeline_grid(tier, seed, n_random_quick=24, n_random_thorough=200, per_row_
     rnd = random.Random(1000 + seed)
     isos = all_isos()
     hostile = [i for i in HOSTILE if i != "WOR" and i in isos]
+    hostile = hostile + [i for i in zero_rows(seed, 8) if i not in hostile]
     cases = []
     rows_c = pairwise_rows("country", seed)
     rows_g = pairwise_rows("global", seed)
